@@ -102,3 +102,34 @@ Proof.
   intros R B W. destruct (reachable_pop_in_walk_graph c pop st R B) as (q & Oq & SK).
   apply (walk_complete c pop fuel W q Oq). rewrite SK. split; [exact B|reflexivity].
 Qed.
+
+(* ------------------------------------------------------------------ the exit call is always resolved *)
+Lemma scan_pop c lasti a pop : scan c lasti = ScPop a pop -> bat c pop = BPopBlock.
+Proof.
+  unfold scan. cbv zeta.
+  repeat match goal with
+         | |- context [match ?x with _ => _ end] => destruct x eqn:?
+         end; try discriminate.
+  all: intros H; injection H as <- <-.
+  all: match goal with
+       | H : is_pop_block ?i = true |- ?i = BPopBlock => destruct i; try discriminate; reflexivity
+       end.
+Qed.
+
+(* For certified code: whenever the frame rests behind the POP_BLOCK of an inlined exit call that
+   some execution reaches, the model of currently_exiting_context answers — no warning, no crash,
+   no fuel exhaustion — and names the block that execution has just popped. *)
+Theorem exit_call_resolved c ce lasti a pop st :
+  check_bcert c ce = true ->
+  scan c lasti = ScPop a pop ->
+  breach c (pop, st) ->
+  exists h, exiting310 c lasti = EExit a h /\ last_opt st = Some h.
+Proof.
+  intros Hc S R. pose proof (scan_pop c lasti a pop S) as B.
+  unfold exiting310. rewrite S.
+  destruct (walk (walk_fuel c) c pop [(0, [])] []) eqn:W.
+  - exists h. split; [reflexivity|]. destruct (walk_sound c ce pop _ _ h Hc W) as (_ & _ & All). apply All. exact R.
+  - exfalso. exact (walk_never_gives_up_on_reachable c pop st _ R B W).
+  - exfalso. revert W. apply (walk_no_crash c ce pop Hc). intros it [H|[]]. subst it. constructor.
+  - exfalso. revert W. apply walk_fuel_enough. rewrite unseen_nil. unfold walk_fuel. simpl. lia.
+Qed.
